@@ -15,6 +15,8 @@ import (
 	"time"
 )
 
+var slowMs = func() int { n, _ := strconv.Atoi(os.Getenv("SYMGO_SLOW")); return n }()
+
 type Result int
 
 const (
@@ -34,7 +36,6 @@ type Solver struct {
 	emitted   map[int]bool
 	declVars  map[string]bool
 	declUFs   map[string]bool
-	stack     []*T
 	timeoutMs int
 	Queries   int
 	Seconds   float64
@@ -42,6 +43,16 @@ type Solver struct {
 	Errors    int
 	log       *os.File
 	dead      bool
+	vsets     map[int]bitset
+	vidx      map[string]int
+	fastMs    int
+	noEscalate bool
+	Escalations int
+	fastFails int
+	lastConeBytes int
+	nDump int
+	Where     string
+	scratch   string
 }
 
 func backendArgs(backend string, timeoutMs int) (string, []string) {
@@ -49,14 +60,14 @@ func backendArgs(backend string, timeoutMs int) (string, []string) {
 	case "z3-new":
 		return "z3-new", []string{"-in"}
 	case "cvc5":
-		return "cvc5", []string{"--incremental", "--produce-models", "--lang=smt2", fmt.Sprintf("--tlimit-per=%d", timeoutMs)}
+		return "cvc5", []string{"--incremental", "--produce-models", "--lang=smt2", fmt.Sprintf("--tlimit-per=%d", 2500)}
 	default:
 		return "z3", []string{"-in"}
 	}
 }
 
 func NewSolver(ctx *Ctx, backend string, timeoutMs int) *Solver {
-	s := &Solver{ctx: ctx, backend: backend, timeoutMs: timeoutMs}
+	s := &Solver{ctx: ctx, backend: backend, timeoutMs: timeoutMs, vsets: map[int]bitset{}, vidx: map[string]int{}, fastMs: 1500, scratch: os.TempDir()}
 	if p := os.Getenv("SYMGO_SMTLOG"); p != "" {
 		s.log, _ = os.Create(fmt.Sprintf("%s.%d.%p.smt2", p, os.Getpid(), s))
 	}
@@ -77,16 +88,7 @@ func (s *Solver) start() {
 	s.emitted = map[int]bool{}
 	s.declVars = map[string]bool{}
 	s.declUFs = map[string]bool{}
-	s.stack = nil
 	s.dead = false
-	if s.backend == "cvc5" {
-		s.send("(set-logic ALL)")
-		s.send("(set-option :global-declarations true)")
-	} else {
-		s.send("(set-option :global-decls true)")
-		s.send(fmt.Sprintf("(set-option :timeout %d)", s.timeoutMs))
-	}
-	s.send("(set-option :produce-models true)")
 }
 
 func (s *Solver) Close() {
@@ -205,38 +207,299 @@ func (s *Solver) readSexp() (string, bool) {
 	}
 }
 
-func (s *Solver) syncStack(pc []*T) {
-	k := 0
-	for k < len(s.stack) && k < len(pc) && s.stack[k] == pc[k] {
-		k++
+// varSet returns the set of variable/UF indices occurring in t (cached).
+func (s *Solver) varSet(t *T) bitset {
+	if bs, ok := s.vsets[t.id]; ok {
+		return bs
 	}
-	if n := len(s.stack) - k; n > 0 {
-		s.send(fmt.Sprintf("(pop %d)", n))
-		s.stack = s.stack[:k]
+	var bs bitset
+	switch t.op {
+	case OConst:
+	case OVar:
+		bs = bs.with(s.varIndex("v:" + t.name))
+	default:
+		if t.op == OUF {
+			bs = bs.with(s.varIndex("u:" + t.name))
+		}
+		for _, a := range t.a {
+			bs = bs.union(s.varSet(a))
+		}
 	}
-	for _, t := range pc[k:] {
-		s.define(t)
-		s.send("(push 1)")
-		s.send("(assert " + ref(t) + ")")
-		s.stack = append(s.stack, t)
-	}
+	s.vsets[t.id] = bs
+	return bs
 }
 
-// Check decides pc ∧ extra. When wantModel is set and the answer is sat, a
-// model over the context's current path variables is returned.
-func (s *Solver) Check(pc []*T, extra *T, wantModel bool) (Result, *Model) {
+func (s *Solver) varIndex(name string) int {
+	if i, ok := s.vidx[name]; ok {
+		return i
+	}
+	i := len(s.vidx)
+	s.vidx[name] = i
+	return i
+}
+
+type bitset []uint64
+
+func (b bitset) with(i int) bitset {
+	n := make(bitset, max(len(b), i/64+1))
+	copy(n, b)
+	n[i/64] |= 1 << uint(i%64)
+	return n
+}
+
+func (b bitset) union(o bitset) bitset {
+	if len(o) == 0 {
+		return b
+	}
+	if len(b) == 0 {
+		return o
+	}
+	// fast path: o subset of b
+	sub := len(o) <= len(b)
+	if sub {
+		for i := range o {
+			if o[i]&^b[i] != 0 {
+				sub = false
+				break
+			}
+		}
+		if sub {
+			return b
+		}
+	}
+	n := make(bitset, max(len(b), len(o)))
+	copy(n, b)
+	for i := range o {
+		n[i] |= o[i]
+	}
+	return n
+}
+
+func (b bitset) intersects(o bitset) bool {
+	n := min(len(b), len(o))
+	for i := 0; i < n; i++ {
+		if b[i]&o[i] != 0 {
+			return true
+		}
+	}
+	return false
+}
+
+func (b bitset) has(i int) bool { return i/64 < len(b) && b[i/64]&(1<<uint(i%64)) != 0 }
+
+// slice returns the conjuncts of pc that are (transitively) connected to extra
+// through shared variables, and the variable set of that slice.
+func (s *Solver) slice(pc []*T, extra *T) ([]*T, bitset) {
+	vs := s.varSet(extra)
+	used := make([]bool, len(pc))
+	sets := make([]bitset, len(pc))
+	for i, c := range pc {
+		sets[i] = s.varSet(c)
+	}
+	changed := true
+	for changed {
+		changed = false
+		for i := range pc {
+			if !used[i] && sets[i].intersects(vs) {
+				used[i] = true
+				vs = vs.union(sets[i])
+				changed = true
+			}
+		}
+	}
+	var out []*T
+	for i, c := range pc {
+		if used[i] {
+			out = append(out, c)
+		}
+	}
+	return out, vs
+}
+
+// Check decides pc ∧ extra. With a witness model of pc at hand only the
+// conjuncts sharing variables with extra are sent (the rest is satisfied by the
+// witness, whose values are kept for the variables outside the slice).
+func (s *Solver) Check(pc []*T, extra *T, wantModel bool, witness *Model) (Result, *Model) {
 	if s.dead {
 		s.restart()
 	}
 	t0 := time.Now()
 	defer func() { s.Seconds += time.Since(t0).Seconds(); s.Queries++ }()
-	s.syncStack(pc)
-	if extra != nil {
-		s.define(extra)
-		s.send("(push 1)")
-		s.send("(assert " + ref(extra) + ")")
+	conj := pc
+	var vs bitset
+	sliced := false
+	if witness != nil && extra != nil {
+		conj, vs = s.slice(pc, extra)
+		sliced = true
 	}
-	s.send("(check-sat)")
+	all := conj
+	if extra != nil {
+		all = append(append([]*T{}, conj...), extra)
+	}
+	var res Result
+	var model *Model
+	tq := time.Now()
+	if s.fastFails >= 2 && !s.noEscalate {
+		// the incremental core keeps timing out on this harness: go straight to the portfolio
+		res, model = s.oneShot(all, wantModel)
+		if res == Unknown {
+			res, model = s.fast(all, wantModel)
+		}
+	} else {
+		res, model = s.fast(all, wantModel)
+		if res == Unknown && !s.noEscalate {
+			s.fastFails++
+			res, model = s.oneShot(all, wantModel)
+		} else if time.Since(tq) < 300*time.Millisecond {
+			s.fastFails = 0
+		}
+	}
+	if slowMs > 0 && time.Since(tq) > time.Duration(slowMs)*time.Millisecond {
+		fmt.Fprintf(os.Stderr, "slow query %.2fs res=%v conj=%d cone=%dB at %s\n", time.Since(tq).Seconds(), res, len(all), s.lastConeBytes, s.Where)
+	}
+	if res == Unknown {
+		s.Unknowns++
+	}
+	if res == Sat && wantModel && model != nil && sliced {
+		merged := witness.clone()
+		for name, v := range model.Vars {
+			if i, ok := s.vidx["v:"+name]; ok && vs.has(i) {
+				merged.Vars[name] = v
+			}
+		}
+		for name, mm := range model.UFs {
+			if i, ok := s.vidx["u:"+name]; ok && vs.has(i) {
+				merged.UFs[name] = mm
+			}
+		}
+		model = merged
+	}
+	return res, model
+}
+
+// cone prints declarations and definitions of everything below the given terms,
+// the assertions, check-sat and (optionally) get-value for the cone's variables.
+func (s *Solver) cone(all []*T, wantModel bool) (string, []*T) {
+	var sb strings.Builder
+	seen := map[int]bool{}
+	declared := map[string]bool{}
+	var vars []*T
+	var ufApps []*T
+	type fr struct {
+		t *T
+		i int
+	}
+	for _, root := range all {
+		st := []fr{{root, 0}}
+		for len(st) > 0 {
+			f := &st[len(st)-1]
+			if f.t.op == OConst || seen[f.t.id] {
+				st = st[:len(st)-1]
+				continue
+			}
+			if f.i < len(f.t.a) {
+				ch := f.t.a[f.i]
+				f.i++
+				if ch.op != OConst && !seen[ch.id] {
+					st = append(st, fr{ch, 0})
+				}
+				continue
+			}
+			n := f.t
+			st = st[:len(st)-1]
+			seen[n.id] = true
+			switch n.op {
+			case OVar:
+				if !declared[n.name] {
+					declared[n.name] = true
+					fmt.Fprintf(&sb, "(declare-const %s %s)\n", n.name, n.s)
+					vars = append(vars, n)
+				}
+			case OUF:
+				if !declared["u:"+n.name] {
+					declared["u:"+n.name] = true
+					fmt.Fprintf(&sb, "(declare-fun %s ((_ BitVec 64)) (_ BitVec 8))\n", n.name)
+				}
+				ufApps = append(ufApps, n)
+				fmt.Fprintf(&sb, "(define-fun t%d () %s %s)\n", n.id, n.s, body(n))
+			default:
+				fmt.Fprintf(&sb, "(define-fun t%d () %s %s)\n", n.id, n.s, body(n))
+			}
+		}
+	}
+	for _, t := range all {
+		sb.WriteString("(assert " + ref(t) + ")\n")
+	}
+	sb.WriteString("(check-sat)\n")
+	var kinds []*T
+	if wantModel {
+		var names []string
+		for _, v := range vars {
+			names = append(names, v.name)
+			kinds = append(kinds, v)
+		}
+		for _, u := range ufApps {
+			names = append(names, ref(u), ref(u.a[0]))
+			kinds = append(kinds, u, u.a[0])
+		}
+		for i := 0; i < len(names); i += 400 {
+			j := min(i+400, len(names))
+			sb.WriteString("(get-value (" + strings.Join(names[i:j], " ") + "))\n")
+		}
+		if len(names) == 0 {
+			kinds = []*T{}
+		}
+	}
+	return sb.String(), kinds
+}
+
+// modelFrom builds a model from the values answering cone's get-value commands.
+func modelFrom(kinds []*T, vals []uint64) *Model {
+	m := &Model{Vars: map[string]uint64{}, UFs: map[string]map[uint64]uint64{}}
+	for i := 0; i < len(kinds); i++ {
+		t := kinds[i]
+		if t.op == OUF {
+			mm := m.UFs[t.name]
+			if mm == nil {
+				mm = map[uint64]uint64{}
+				m.UFs[t.name] = mm
+			}
+			mm[vals[i+1]] = vals[i]
+			i++
+			continue
+		}
+		if t.op == OVar {
+			m.Vars[t.name] = vals[i]
+		}
+	}
+	return m
+}
+
+// fast runs the query in the persistent solver process after a (reset), so the
+// solver's full non-incremental strategy applies, with a short timeout.
+func (s *Solver) fast(all []*T, wantModel bool) (Result, *Model) {
+	tc := time.Now()
+	txt, kinds := s.cone(all, wantModel)
+	if slowMs > 0 && time.Since(tc) > 500*time.Millisecond {
+		fmt.Fprintf(os.Stderr, "slow cone print %.2fs bytes=%d\n", time.Since(tc).Seconds(), len(txt))
+	}
+	s.lastConeBytes = len(txt)
+	if d := os.Getenv("SYMGO_DUMPBIG"); d != "" && len(txt) > 150000 {
+		s.nDump++
+		os.WriteFile(fmt.Sprintf("%s/big%d_%d.smt2", d, os.Getpid(), s.nDump), []byte(txt), 0o644)
+	}
+	if s.backend == "cvc5" {
+		s.send("(reset)\n(set-logic ALL)\n(set-option :produce-models true)")
+	} else {
+		s.send(fmt.Sprintf("(reset)\n(set-option :timeout %d)\n(set-option :produce-models true)", s.fastMs))
+	}
+	// the whole query is written by a helper goroutine so that a full pipe cannot block us
+	done := make(chan struct{})
+	go func() {
+		s.send(txt)
+		close(done)
+	}()
+	defer func() { <-done }()
 	res := Unknown
 	sawErr := false
 	for {
@@ -253,7 +516,6 @@ func (s *Solver) Check(pc []*T, extra *T, wantModel bool) (Result, *Model) {
 			s.Errors++
 			fmt.Fprintln(os.Stderr, "solver error:", line)
 			sawErr = true
-			// keep reading until the actual answer arrives
 			continue
 		}
 		switch line {
@@ -270,23 +532,144 @@ func (s *Solver) Check(pc []*T, extra *T, wantModel bool) (Result, *Model) {
 		break
 	}
 	if sawErr {
-		// an (error line before the answer makes the answer unreliable
 		res = Unknown
 	}
-	var model *Model
-	if res == Sat && wantModel {
-		model = s.getModel()
-		if model == nil {
-			res = Unknown
+	if !wantModel || len(kinds) == 0 {
+		if wantModel && res == Sat {
+			return res, modelFrom(nil, nil)
+		}
+		return res, nil
+	}
+	// consume the answers of the get-value commands (errors when not sat)
+	nBatches := (len(kinds) + 399) / 400
+	var vals []uint64
+	bad := false
+	for b := 0; b < nBatches; b++ {
+		sx, ok := s.readSexp()
+		if !ok {
+			s.Errors++
+			s.restart()
+			return Unknown, nil
+		}
+		if res != Sat {
+			continue
+		}
+		if strings.HasPrefix(strings.TrimSpace(sx), "(error") {
+			bad = true
+			continue
+		}
+		v, err := parsePairs(sx)
+		if err != nil {
+			bad = true
+			continue
+		}
+		vals = append(vals, v...)
+	}
+	if res != Sat {
+		return res, nil
+	}
+	if bad || len(vals) != len(kinds) {
+		return Unknown, nil
+	}
+	return Sat, modelFrom(kinds, vals)
+}
+
+// portfolioSem bounds the number of concurrently running portfolio queries.
+var portfolioSem = make(chan struct{}, 5)
+
+// oneShot writes the cone of influence of the query to a file and runs a
+// portfolio of solvers on it with the full timeout.
+func (s *Solver) oneShot(all []*T, wantModel bool) (Result, *Model) {
+	s.Escalations++
+	txt, kinds := s.cone(all, wantModel)
+	f, err := os.CreateTemp(s.scratch, "q*.smt2")
+	if err != nil {
+		return Unknown, nil
+	}
+	f.WriteString("(set-logic ALL)\n(set-option :produce-models true)\n")
+	f.WriteString(txt)
+	f.Close()
+	if os.Getenv("SYMGO_KEEPQ") == "" {
+		defer os.Remove(f.Name())
+	} else {
+		fmt.Fprintln(os.Stderr, "escalated query kept:", f.Name())
+	}
+	portfolioSem <- struct{}{}
+	defer func() { <-portfolioSem }()
+	type answer struct {
+		res Result
+		out string
+	}
+	sec := (s.timeoutMs + 999) / 1000
+	cmds := [][]string{
+		{"z3", fmt.Sprintf("-T:%d", sec), f.Name()},
+		{"z3-new", fmt.Sprintf("-T:%d", sec), f.Name()},
+		{"cvc5", fmt.Sprintf("--tlimit=%d", s.timeoutMs), "--produce-models", f.Name()},
+	}
+	ch := make(chan answer, len(cmds))
+	var procs []*exec.Cmd
+	for _, c := range cmds {
+		cmd := exec.Command(c[0], c[1:]...)
+		procs = append(procs, cmd)
+		go func(cmd *exec.Cmd) {
+			out, _ := cmd.Output()
+			txt := string(out)
+			first := strings.TrimSpace(strings.SplitN(txt, "\n", 2)[0])
+			r := Unknown
+			// an error before the answer makes it unreliable; errors after
+			// "unsat" come from the trailing get-value and are expected
+			switch first {
+			case "sat":
+				if !strings.Contains(txt, "(error") {
+					r = Sat
+				}
+			case "unsat":
+				r = Unsat
+			}
+			ch <- answer{r, txt}
+		}(cmd)
+	}
+	res := Unknown
+	var got answer
+	for i := 0; i < len(cmds); i++ {
+		a := <-ch
+		if a.res != Unknown {
+			res, got = a.res, a
+			break
 		}
 	}
-	if res == Unknown {
-		s.Unknowns++
+	for _, p := range procs {
+		if p.Process != nil {
+			p.Process.Kill()
+		}
 	}
-	if extra != nil {
-		s.send("(pop 1)")
+	if res != Sat || !wantModel {
+		return res, nil
 	}
-	return res, model
+	rest := got.out[strings.Index(got.out, "sat")+3:]
+	var vals []uint64
+	pos := 0
+	for pos < len(rest) {
+		n, j, err := parseSx(rest, pos)
+		if err != nil {
+			break
+		}
+		pos = j
+		for _, p := range n.list {
+			if len(p.list) != 2 {
+				return Unknown, nil
+			}
+			v, err := sxValue(p.list[1])
+			if err != nil {
+				return Unknown, nil
+			}
+			vals = append(vals, v)
+		}
+	}
+	if len(vals) != len(kinds) {
+		return Unknown, nil
+	}
+	return Sat, modelFrom(kinds, vals)
 }
 
 func (s *Solver) getModel() *Model {
